@@ -55,6 +55,8 @@ def frame_str(img, f):
     s += ["coded", int(f.get("coded", False))]
     if f.get("ent"):
         s += ["ent", f["ent"]]
+    if f.get("tocperm") is not None:
+        s += ["tocperm", f["tocperm"]]
     s += ["chans", len(f["chans"])] + [chan_str(*c) for c in f["chans"]]
     return " ".join(map(str, s))
 
@@ -266,6 +268,8 @@ def gen_modular_image(rng, opts=None):
         wp = [rng.randrange(32) for _ in range(7)] + [rng.randrange(16) for _ in range(4)]
     frame = {"gshift": gshift, "chans": chans, "tr": trs, "pals": pals, "tree": tree, "wp": wp,
              "ent": (o.get("ent") if o.get("ent") is not None else rng.choice([0, 0, 1, 1, 2, 2, 3, 4, 5, 5, 6, 6]))}
+    if rng.random() < 0.25:
+        frame["tocperm"] = rng.randrange(1000)      # permuted TOC (identity-sized for single-section frames)
     return img, [frame]
 
 
